@@ -16,6 +16,8 @@ CONSTANTS
     MaxPanics = 0
     FixF2 = TRUE
     FixF3 = TRUE
+    InitEnc = "proto"
+    MaxMigrations = 0
 VIEW view
 INVARIANTS
     TypeOK
@@ -30,5 +32,7 @@ INVARIANTS
     ModOnlyPanicking
     ModSkippedEverywhere
     ModProgress
+    EncUniform
+    SnapshotsReadable
 ACTION_CONSTRAINT EmitEdge
 CHECK_DEADLOCK FALSE
